@@ -168,13 +168,20 @@ unsafe impl GlobalAlloc for Checking {
   unsafe fn dealloc(&self, p: *mut u8, l: Layout) {
     if !SCOPE || FAILED {
       if find_live(p as usize).is_none() {
+        // a stale entry must not survive the block: its address may be handed out again later
+        if let Some(i) = foreign_slot(p as usize) {
+          FOREIGN[i] = 0;
+        }
         System.dealloc(p, l);
       }
       return;
     }
-    if let Some(i) = foreign_slot(p as usize) {
-      FOREIGN[i] = 0;
-      return System.dealloc(p, l);
+    // a live tracked block takes precedence over a (possibly stale) foreign entry with the same address
+    if find_live(p as usize).is_none() {
+      if let Some(i) = foreign_slot(p as usize) {
+        FOREIGN[i] = 0;
+        return System.dealloc(p, l);
+      }
     }
     WINDOW = false;
     crate::tl!("F {} {}", l.size(), l.align());
@@ -203,14 +210,19 @@ unsafe impl GlobalAlloc for Checking {
 
   unsafe fn realloc(&self, p: *mut u8, l: Layout, new_size: usize) -> *mut u8 {
     if !SCOPE || FAILED {
+      if let Some(i) = foreign_slot(p as usize) {
+        FOREIGN[i] = 0;
+      }
       return System.realloc(p, l, new_size);
     }
-    if let Some(i) = foreign_slot(p as usize) {
-      let q = System.realloc(p, l, new_size);
-      if !q.is_null() {
-        FOREIGN[i] = q as usize;
+    if find_live(p as usize).is_none() {
+      if let Some(i) = foreign_slot(p as usize) {
+        let q = System.realloc(p, l, new_size);
+        if !q.is_null() {
+          FOREIGN[i] = q as usize;
+        }
+        return q;
       }
-      return q;
     }
     if WINDOW {
       // a block of the panic runtime that overflowed the foreign table
